@@ -79,6 +79,7 @@ type LCfg struct {
 	Calls   map[string]*CallMap   // "Type.Method" or "pkg.Func" -> Coq function (receiver first)
 	Maps    map[string]string     // package-level map variable -> Coq function applied to the key
 	MapSet  string                // Coq function for m[k] = v :  MapSet m k v
+	Types   map[string]string     // Go named type -> Coq type (overrides the structural mapping)
 }
 
 // CallMap describes a call the translator may emit.
@@ -103,6 +104,7 @@ type LFunc struct {
 	OptionVars map[string]bool     // Go pointer variables whose Coq value is an option (nil = None)
 	StmtCalls  map[string][2]string // source text of a call statement -> {Coq variable rebound, Coq term}
 	SumCalls   map[string]string   // source text of CALL in `x, err := CALL` followed by `if err != nil` -> Coq term (A + E)
+	SkipStmts  []string            // statements whose source text starts with one of these are dropped (documented per function)
 	Partial    bool              // the function may panic: results are wrapped with RetWrap, loops use loop_fold
 	RetWrap    string            // format applied to a returned value, e.g. "(Some %s)"; default "%s"
 }
@@ -168,6 +170,9 @@ func (t *LT) coqType(ty types.Type) (string, error) {
 	ty = deref(ty)
 	if isTime(ty) {
 		return "Z", nil
+	}
+	if ct, ok := t.cfg.Types[namedName(ty)]; ok {
+		return ct, nil
 	}
 	if sm, ok := t.cfg.Structs[namedName(ty)]; ok {
 		switch ty.Underlying().(type) {
@@ -800,6 +805,9 @@ func terminates(l []ast.Stmt) bool {
 }
 
 func (t *LT) bind(name string, pos token.Pos) string {
+	if v, ok := t.env[name]; ok {
+		return v // a parameter (a_x) or an earlier binding keeps its Coq name; lets shadow
+	}
 	v := "v_" + name
 	t.env[name] = v
 	if _, ok := t.decl[name]; !ok {
@@ -827,6 +835,14 @@ func (t *LT) block(l []ast.Stmt, k kont) (string, error) {
 		return k.fall, nil
 	}
 	rest := func() (string, error) { return t.block(l[1:], k) }
+	if len(t.fn.SkipStmts) > 0 {
+		src := t.src(l[0])
+		for _, pfx := range t.fn.SkipStmts {
+			if strings.HasPrefix(src, pfx) {
+				return rest()
+			}
+		}
+	}
 	switch s := l[0].(type) {
 	case *ast.ReturnStmt:
 		var parts []string
@@ -1114,7 +1130,19 @@ func (t *LT) rangeStmt(s *ast.RangeStmt, k kont, rest func() (string, error)) (s
 	if err != nil {
 		return "", err
 	}
-	sv := t.assigned(s.Body.List)
+	sv0 := t.assigned(s.Body.List)
+	var sv []string
+	for _, v := range sv0 {
+		own := false
+		for _, e := range []ast.Expr{s.Key, s.Value} {
+			if id, ok := e.(*ast.Ident); ok && v == "v_"+id.Name {
+				own = true
+			}
+		}
+		if !own {
+			sv = append(sv, v)
+		}
+	}
 	xv := "_"
 	if s.Value != nil {
 		val, ok := s.Value.(*ast.Ident)
